@@ -69,16 +69,20 @@ def extra(ctx, case, spec, src, res, stub, mod, added, removed, tdn):
     # an alias that merely moved out of a TYPE_CHECKING block of the source is caught by the eraser-and-diff of C15
     stray = [a for a in stray if a in added]
     src_all = A.import_aliases(ast.parse(src))
-    if stray and all(a in src_all for a in stray):
-        # listed finding: the very same import exists inside a function body of the source, so the stub's import does
-        # not count as new and is added at module level unconfined
-        ctx.fail(f"{pid}/import-with-function-local-twin-not-confined", case, f"{stray}\n{res[:700]}")
-    elif stray and tdn and all(a not in A.import_aliases(ast.parse(stub)) and a[0] == "from" and f"{a[1]}.{a[2]}" in stub for a in stray):
+    stub_al = A.import_aliases(ast.parse(stub))
+    twin = [a for a in stray if a in src_all]
+    tdbody = [a for a in stray if a not in twin and tdn and a not in stub_al and a[0] == "from" and f"{a[1]}.{a[2]}" in stub]
+    other = [a for a in stray if a not in twin and a not in tdbody]
+    if other:
+        return ctx.fail(f"{pid}/new-import-not-confined", case, f"new imports outside `if TYPE_CHECKING:`: {other}\n{res[:900]}")
+    if twin:
+        # listed finding: the very same import exists elsewhere in the source (inside a function body or an existing
+        # TYPE_CHECKING block), so the stub's import does not count as new and is added at module level unconfined
+        ctx.fail(f"{pid}/import-with-function-local-twin-not-confined", case, f"{twin}\n{res[:700]}")
+    if tdbody:
         # listed finding: a name used (module-qualified, without an import) in the body of a generated TypedDict class; libcst
         # adds the import itself at module level and the confinement pass, which only knows the stub's import block, leaves it there
-        ctx.fail(f"{pid}/import-for-generated-typeddict-body-not-confined", case, f"{stray}\n{res[:700]}")
-    elif stray:
-        return ctx.fail(f"{pid}/new-import-not-confined", case, f"new imports outside `if TYPE_CHECKING:`: {stray}\n{res[:900]}")
+        ctx.fail(f"{pid}/import-for-generated-typeddict-body-not-confined", case, f"{tdbody}\n{res[:700]}")
     nt = bool(A.import_aliases(ast.parse(src))) and any(a[1] not in ("typing", "__future__") for a in added)
     ctx.label("c16-nontrivial" if nt else "c16-trivial")
     # executes and behaves as before
@@ -108,7 +112,11 @@ def extra(ctx, case, spec, src, res, stub, mod, added, removed, tdn):
 
 def check(ctx, spec, k, overwrite, sc):
     n0 = ctx.evaluations
-    c15.check(ctx, spec, k, overwrite, True, sc, pid="C16", extra=extra)
+    def nt(src, stub):
+        stub_imports = [a for a in A.import_aliases(ast.parse(stub)) if a[1] not in ("typing", "__future__")]
+        return bool(A.import_aliases(ast.parse(src))) and bool(stub_imports)
+
+    c15.check(ctx, spec, k, overwrite, True, sc, pid="C16", extra=extra, nt_rule=nt)
 
 
 def shard(ctx):
